@@ -8,6 +8,8 @@ drv_unparse: line-protocol driver of the unparser model.
   chunks   <ruleset> <indent> <tree>          number of chunks of phase 1 and final Indentator level
   tailsafe <ruleset> <indent> <tree>          the hypotheses of ends_with_one_newline_partial on this tree:
                                               OK <tailSafe T|F> <tokensCleanB T|F>
+  linesok  <ruleset> <indent> <tree>          statement and hypotheses of pretty_lines_indented on this tree:
+                                              OK <checkLines T|F> <lineStartsStable T|F> <tokensEdgeB T|F> <indentOK T|F>
   treeok   <ruleset> <indent> <tree>          tree-level hypotheses of the C20 theorems:
                                               OK <valAll lineSafe T|F> <valAll braceFree T|F> <no Case/Default T|F>
   rulesets                                    the rule set ids
@@ -98,6 +100,16 @@ def handle (line : String) : String :=
             let a := tailSafe (normalize cfg.layout (trailing cs []))
             let b := tokensCleanB cs
             "OK " ++ (if a then "T" else "F") ++ " " ++ (if b then "T" else "F")
+          | .error e => errStr e
+      else if cmd == "linesok" then
+        withTree rest fun tree =>
+          let cfg := mkCfg tablesGen rs indent defaultResolve
+          let b (x : Bool) := if x then "T" else "F"
+          match walkChunks cfg tree () with
+          | .ok (cs, _) =>
+            let ind := effIndent cfg.hd cfg.indentStr
+            "OK " ++ b (checkLines ind (flushAll cfg cs none [] 0).1 (printingDepths cs 0) (some [])) ++ " " ++
+              b (lineStartsStable cs) ++ " " ++ b (tokensEdgeB cs) ++ " " ++ b (indentOK ind)
           | .error e => errStr e
       else if cmd == "treeok" then
         withTree rest fun tree =>
